@@ -489,3 +489,89 @@ def r05_4_then(ctx: Ctx, rule: str = "R05.4") -> None:
             run.ok(rule, inst, {"start": src(a_start), "stop": src(a_stop)})
     if decided:
         run.extra["slice_then_paths_decided"] = decided
+
+
+# ------------------------------------------------------------------ R05.5 / R05.6
+
+
+def r05_5_operations_stored_as_given(ctx: Ctx, rule: str = "R05.5") -> None:
+    """Operation constructors validate but do not rewrite their fields (except Selection's documented normalisation)."""
+    run, m, k = ctx.run, ctx.m, ctx.k
+    run.rule(
+        rule,
+        "operation classes store their fields as given: __post_init__ may validate (raise) but assigns no field, except "
+        "Selection.predicate (R13.3); a constructor that rewrites sort terms / bounds / columns changes what merging composes",
+        expected_min=8,
+    )
+    allowed = {("Selection", "predicate")}
+    sort_term = None
+    try:
+        sort_term = m.find_class("SortTerm")
+    except AnalysisError:
+        pass
+    for c in k.concrete(k.unary_ops) + k.concrete(k.binary_ops) + ([sort_term] if sort_term else []):
+        f = c.methods.get("__post_init__")
+        inst = f"{c.name}.__post_init__"
+        if f is None:
+            run.ok(rule, inst, {"note": "no __post_init__"})
+            continue
+        writes = []
+        for call in iter_calls(f.node):
+            if call_attr(call) in ("__setattr__", "setattr") and len(call.args) >= 2:
+                nm = call.args[1].value if isinstance(call.args[1], ast.Constant) else None
+                writes.append((nm, call))
+        for n in ast.walk(f.node):
+            if isinstance(n, (ast.Assign, ast.AugAssign)):
+                for t in (n.targets if isinstance(n, ast.Assign) else [n.target]):
+                    if isinstance(t, ast.Attribute) and src(t.value) == "self":
+                        writes.append((t.attr, n))
+        bad = [(nm, node) for nm, node in writes if (c.name, nm) not in allowed]
+        if bad:
+            run.fail(rule, inst, f"{c.name}.__post_init__ rewrites field `{bad[0][0]}`: the operation no longer stores what it was given", fi=f, node=bad[0][1])
+        else:
+            run.ok(rule, inst)
+
+
+def r05_6_who_may_elide(ctx: Ctx, rule: str = "R05.6") -> None:
+    """Identity is constructed, and a target handed back unchanged, only at the documented do-nothing sites."""
+    run, m, k = ctx.run, ctx.m, ctx.k
+    run.rule(
+        rule,
+        "an operation is elided only at the documented do-nothing sites: Identity() is constructed only in the _begin_apply "
+        "of Projection/Selection/Slice/Sort and as the superseded operation in Projection.commute; only those classes (and "
+        "the placeholders / Join's identity operand) return their target unchanged from _finish_apply",
+        expected_min=6,
+    )
+    ok_sites = {("Projection", "_begin_apply"), ("Selection", "_begin_apply"), ("Slice", "_begin_apply"), ("Sort", "_begin_apply"), ("Projection", "commute")}
+    for fi in m.all_functions():
+        if fi.module.rel == "tests.py":
+            continue
+        for call in iter_calls(fi.node):
+            nm = (dotted(call.func) or "").split(".")[-1]
+            if nm != "Identity" or m.resolve_class(fi.module, "Identity") is None:
+                continue
+            inst = f"{fi.module.rel}:{fi.qualname}:Identity()"
+            site = (fi.cls.name if fi.cls else None, fi.name)
+            if site in ok_sites:
+                run.ok(rule, inst)
+            else:
+                run.fail(
+                    rule,
+                    inst,
+                    f"{fi.qualname} constructs Identity(): an operation is dropped at a site that is not one of the documented "
+                    "do-nothing cases (all-columns projection, trivially true selection, trivial slice, empty sort)",
+                    fi=fi,
+                    node=call,
+                )
+    may_return_target = {"Projection", "Selection", "Slice", "Sort", "Identity", "IgnoreOne", "Join", "UnaryOperation"}
+    for c in k.unary_ops + k.binary_ops + [k.unary_root]:
+        f = c.methods.get("_finish_apply")
+        if f is None:
+            continue
+        params = [q for q in f.params if q != "self"]
+        returns_arg = any(p.outcome == "return" and isinstance(p.value, ast.Name) and p.value.id in params for p in ctx.paths(f))
+        inst = f"{c.name}._finish_apply:returns-target"
+        if returns_arg and c.name not in may_return_target:
+            run.fail(rule, inst, f"{c.name}._finish_apply can hand its target back unchanged: {c.name} has no do-nothing form, so the operation is silently dropped", fi=f)
+        else:
+            run.ok(rule, inst)
